@@ -236,9 +236,12 @@ class Receive(WireUnit):
                   interp.eq(exc.fields.get("error_status"), es))
         off = exc.fields.get("offending_oid")
         conds = []
-        for i in range(self.k):
-            conds.append(Implies(ei.eq(i + 1), interp.eq(off, oids[i]) if isinstance(off, SOid) else False))
         empty = isinstance(off, Obj) and off.cls.name == "ObjectIdentifier" and not isinstance(off.fields.get("pyvalue"), str)
+        for i in range(self.k):
+            # (the zero-length OID is falsy: `offending_oid or ObjectIdentifier()` then hands out a NEW empty OID - the same value)
+            n = rt.oid.olen_sym(interp, oids[i])
+            zero_len = (n == 0) if isinstance(n, int) else n.eq(0)
+            conds.append(Implies(ei.eq(i + 1), interp.eq(off, oids[i]) if isinstance(off, SOid) else And(empty, zero_len)))
         conds.append(Implies(Or(ei < 1, ei > self.k), empty))
         ctx.check(oname("C08", "puresnmp.pdu:PDU.decode_raw", "raises", "offending-oid-is-the-binding-selected-by-error-index-else-empty"),
                   And(*conds))
